@@ -220,6 +220,44 @@ def run_instance(inst):
     RSTAT = RUN(lambda a_: jx.integrate(m2, param_state=sm2.pstate(a_), **kw), sm2.arrays())
     RDAT = RUN(lambda a_: sim(a_, jnp.asarray(cur_c)), base_syms)
     decide(None, "DATA_stimulate", "stimulate vs data_stimulate", runs=(RSTAT, RDAT, ALL))
+    # ------------------------------------------------------------------ MIXED: a static input on one row together with a data_* input on another row
+    if len(set(stim_rows)) >= 2:
+        r_static, r_data = int(stim_rows[0]), int(stim_rows[-1])
+        c_static = jnp.asarray(rng.uniform(0.1, 0.4, (1, nsteps)))
+        m6 = zoo.build(name); apply_plan(m6, plan)
+        m6.select(nodes=[r_static]).stimulate(c_static[0], verbose=False)
+        sm6 = simenc.SymModule(m6)
+        def sim_mixed(arrays, a):
+            ds = m6.select(nodes=[r_data]).data_stimulate(a, None)
+            return jx.integrate(m6, param_state=sm6.pstate(arrays), data_stimuli=ds, **kw)
+        def sim_both_data(arrays, a):
+            ds = m.select(nodes=[r_static]).data_stimulate(c_static, None)
+            ds = m.select(nodes=[r_data]).data_stimulate(a, ds)
+            return jx.integrate(m, param_state=sm.pstate(arrays), data_stimuli=ds, **kw)
+        try:
+            RMIX = RUN(sim_mixed, sm6.arrays(), A); RBOTH = RUN(sim_both_data, base_syms, A)
+            decide(None, "MIXED_stimulate", f"stimulate(row {r_static}) + data_stimulate(row {r_data}) vs both through data_stimulate", runs=(RMIX, RBOTH, ALL))
+        except Exception as ex:
+            viol("MIXED_stimulate", f"stimulate + data_stimulate in one call raised {type(ex).__name__}: {str(ex)[:100]}")
+        # the same for clamps of v on two different rows
+        cl_static = jnp.asarray(rng.uniform(-70.0, -50.0, (nsteps,)))
+        m7 = zoo.build(name); apply_plan(m7, plan)
+        m7.select(nodes=[r_static]).clamp("v", cl_static, verbose=False)
+        sm7 = simenc.SymModule(m7)
+        CL = sym.symvec("clampv", (nsteps,))
+        def sim_mixed_clamp(arrays, c_):
+            dc = m7.select(nodes=[r_data]).data_clamp("v", c_, None)
+            return jx.integrate(m7, param_state=sm7.pstate(arrays), data_clamps=dc, **kw)
+        def sim_both_clamp(arrays, c_):
+            dc = m.select(nodes=[r_static]).data_clamp("v", cl_static, None)
+            dc = m.select(nodes=[r_data]).data_clamp("v", c_, dc)
+            return jx.integrate(m, param_state=sm.pstate(arrays), data_clamps=dc, t_max=nsteps * 0.025 - 0.01, **kw)
+        try:
+            RMC = RUN(lambda a_, c_: jx.integrate(m7, param_state=sm7.pstate(a_), data_clamps=m7.select(nodes=[r_data]).data_clamp("v", c_, None), t_max=nsteps * 0.025 - 0.01, **kw), sm7.arrays(), CL)
+            RBC = RUN(sim_both_clamp, base_syms, CL)
+            decide(None, "MIXED_clamp", f"clamp(v, row {r_static}) + data_clamp(v, row {r_data}) vs both through data_clamp", runs=(RMC, RBC, ALL))
+        except Exception as ex:
+            res["inconclusive"].append({"instance": inst, "query": "MIXED_clamp", "reason": f"{type(ex).__name__}: {str(ex)[:100]}"})
     # ------------------------------------------------------------------ CLAMP (v, a channel state, a synaptic state)
     clamp_targets = [("v", "node", len(m.nodes) - 1)]
     for ch in m.channels:
